@@ -575,6 +575,24 @@ def run_schedule(b, on_capture=None):
             apply_ic(b, op.get('units'))
         elif o == 'newsolver':
             b.solver = g().Solver(powertrain=b.pt)
+        elif o == 'bystander':
+            # ANOTHER, independent model alive in the same process is built (first time) and advanced by one of its own
+            # operations between two operations of this one: models must not influence each other
+            bb = getattr(b, 'bystander', None)
+            try:
+                if bb is None:
+                    bb = b.bystander = build(op['spec'], hooks=False)
+                    bb.next_op = 0
+                ops_ = [x for x in op['spec']['schedule'] if x['op'] in ('run', 'reset', 'reapply')]
+                if bb.next_op < len(ops_):
+                    saved_ = bb.spec
+                    bb.spec = dict(saved_, schedule=[ops_[bb.next_op]])
+                    run_schedule(bb)
+                    bb.spec = saved_
+                    bb.next_op += 1
+                b.bystander_ops = getattr(b, 'bystander_ops', 0) + 1
+            except Exception as ex:          # the bystander's own troubles are not this model's business
+                b.bystander_failures = getattr(b, 'bystander_failures', 0) + 1
         elif o == 'badrun':
             # a call of Solver.run the library rejects while checking its arguments (documented TypeError / ValueError): it
             # leaves no trace, whatever follows is unaffected. Observed here: exception class and the frame condition.
